@@ -33,6 +33,9 @@ func runC09(c *Ctx) {
 	c.NotDec = []string{"the balance-sum equation over arbitrary bytecode (value-level)", "gas used <= gas limit numerically", "self-destruct corner cases beyond the ordering of credit and suicide"}
 	c.Floors["G"] = 14
 	c.Floors["O"] = 12
+	// what Finalise and Commit write is the journal's dirty set: a revert takes an address out of it only when every one
+	// of its entries is undone (group owned by C08)
+	c08Mechanics(c)
 
 	from := msgFn + `From\(st\.msg\)`
 	gasM := msgFn + `Gas\(st\.msg\)`
@@ -115,18 +118,28 @@ func runC09(c *Ctx) {
 					continue
 				}
 				nExits++
-				errv := "nil"
+				// one obligation per error value that leaves here (an exit shared by several errors returns a merged value)
+				errvs := []string{"nil"}
 				if len(ret.Results) == 2 {
-					errv = clip(pathOf(ret.Results[1]), 70)
-					if i := strings.Index(errv, "("); i > 0 && strings.HasPrefix(errv, "call:") {
-						errv = errv[:i] + "(…)#1"
+					errvs = nil
+					for _, pcase := range phiCases(ret.Results[1]) {
+						errv := clip(pathOf(pcase.Val), 70)
+						if errv == "nil" && len(phiCases(ret.Results[1])) > 1 {
+							continue
+						}
+						if i := strings.Index(errv, "("); i > 0 && strings.HasPrefix(errv, "call:") {
+							errv = errv[:i] + "(…)#1"
+						}
+						errvs = append(errvs, errv)
 					}
 				}
-				key := fnName(fn) + "/gas taken from the block pool is returned before the exit returning " + errv
-				if found {
-					c.Bad("O", key, instrPos(hit.Instr), 2, fmt.Sprintf("after buyGas's gp.SubGas the return at %s is reached without refundGas (gp.AddGas): the rejected transaction's full gas limit stays deducted from the block gas pool although its state changes are reverted; path %s", c.P.Pos(instrPos(ret)), c.P.pathStr(hit.Path)))
-				} else {
-					c.OK("O", key, instrPos(ret), 2, "")
+				for _, errv := range errvs {
+					key := fnName(fn) + "/gas taken from the block pool is returned before the exit returning " + errv
+					if found {
+						c.Bad("O", key, instrPos(hit.Instr), 2, fmt.Sprintf("after buyGas's gp.SubGas the return at %s is reached without refundGas (gp.AddGas): the rejected transaction's full gas limit stays deducted from the block gas pool although its state changes are reverted; path %s", c.P.Pos(instrPos(ret)), c.P.pathStr(hit.Path)))
+					} else {
+						c.OK("O", key, instrPos(ret), 2, "")
+					}
 				}
 			}
 			if nExits < 2 {
@@ -198,10 +211,27 @@ func runC09(c *Ctx) {
 		okShape := re(`^\(st\.gas \+ phi\((` + used + `\|` + ref + `|` + ref + `\|` + used + `)\)\)$`).MatchString(v)
 		c.Check("F", fnName(fn)+"/refund added is a choice between gasUsed/2 and the refund counter", okShape, fn.Pos(), 1, "st.gas = "+clip(v, 200))
 		// the counter is chosen exactly when gasUsed/2 exceeds it (min form)
-		c.Guarded(fn, "take the refund counter", func(in ssa.Instruction) bool {
-			cc := callCommon(in)
-			return cc != nil && calleeNameNoPath(cc) == "iface:(kvm.StateDB).GetRefund" && in.Block() != fn.Blocks[0]
-		}, G("gasUsed/2 > refund counter", Cmp(`^`+used+`$`, ">", `^`+ref+`$`)))
+		okMin, nCase := true, 0
+		for _, in := range findInstrs(fn, StoreTo(`^&st\.gas$`)) {
+			bo, isAdd := in.(*ssa.Store).Val.(*ssa.BinOp)
+			if !isAdd {
+				okMin = false
+				continue
+			}
+			for _, pcase := range phiCases(bo.Y) {
+				nCase++
+				v := pathOf(pcase.Val)
+				switch {
+				case re(`^` + ref + `$`).MatchString(v):
+					okMin = okMin && hasCond(pcase.Conds, `^\(`+used+` > `+ref+`\)=T$`)
+				case re(`^` + used + `$`).MatchString(v):
+					okMin = okMin && hasCond(pcase.Conds, `^\(`+used+` > `+ref+`\)=F$`)
+				default:
+					okMin = false
+				}
+			}
+		}
+		c.Check("G", fnName(fn)+"/take the refund counter <= gasUsed/2 > refund counter", okMin && nCase == 2, fn.Pos(), nCase, "the refund added must be the smaller of gasUsed/2 and the refund counter")
 		add := CallTo(`^iface:\(kvm\.StateDB\)\.AddBalance$`, "")
 		pool := CallTo(`^\(\*types\.GasPool\)\.AddGas$`, "")
 		for _, in := range findInstrs(fn, add) {
